@@ -31,7 +31,9 @@ class Tr:
         self.classes = [(socket.timeout, "socketTimeout"), (OSError, "osError"),
                         (errors.TimeoutError, "pyroTimeout"), (errors.ConnectionClosedError, "connClosed"),
                         (ValueError, "valueError"), (AssertionError, "assertionError"), (UnicodeDecodeError, "unicodeDecodeError"),
-                        (errors.ProtocolError, "protocolError"), (zlib.error, "zlibError")]
+                        (errors.ProtocolError, "protocolError"), (zlib.error, "zlibError"),
+                        (__import__("struct").error, "structError"), (UnicodeEncodeError, "unicodeEncodeError")]
+        self.tmp = 0
 
     # ---------------------------------------------------------------- names
     def resolve(self, node):
@@ -78,6 +80,20 @@ class Tr:
             return ".maxSize"
         if isinstance(e, ast.Dict) and not e.keys:
             return ".emptyDict"
+        if isinstance(e, ast.List) and not e.elts:
+            return ".emptyList"
+        if isinstance(e, ast.Attribute) and e.attr == "COMPRESSION" and isinstance(e.value, ast.Name) \
+                and self.g.get(e.value.id) is __import__("Pyro5").config:
+            return ".compressionOn"
+        if isinstance(e, ast.Attribute) and e.attr == "correlation_id" and isinstance(e.value, ast.Name) \
+                and e.value.id not in self.locals and self.g.get(e.value.id) is __import__("Pyro5.callcontext").callcontext.current_context:
+            return ".corrId"
+        if isinstance(e, ast.Attribute) and e.attr == "bytes":
+            return "(.uuidBytes %s)" % self.expr(e.value)
+        if isinstance(e, ast.IfExp):
+            return "(.ifExp %s %s %s)" % (self.expr(e.test), self.expr(e.body), self.expr(e.orelse))
+        if isinstance(e, ast.Attribute) and getattr(self, "lenient", False):
+            return "(.unsupportedE %s)" % q(ast.unparse(e)[:60])
         if isinstance(e, ast.Call):
             f = e.func
             if isinstance(f, ast.Name) and not e.keywords:
@@ -96,6 +112,19 @@ class Tr:
                 if f.id == "getattr" and len(e.args) == 3 and isinstance(e.args[1], ast.Constant) and e.args[1].value == "errno" \
                         and ast.unparse(e.args[2]) == ast.unparse(e.args[0]) + ".args[0]":
                     return "(.errnoOf %s)" % self.expr(e.args[0])
+                if f.id == "isinstance" and len(e.args) == 2:
+                    T = self.resolve(e.args[1])
+                    return "(.isInst %s %s)" % (self.expr(e.args[0]), "true" if isinstance(b"", T) else "false")
+                if f.id == "sum" and len(e.args) == 1 and isinstance(e.args[0], (ast.ListComp, ast.GeneratorExp)):
+                    c = e.args[0]
+                    g = c.generators[0]
+                    if len(c.generators) == 1 and not g.ifs and not g.is_async and isinstance(g.target, ast.Name) \
+                            and isinstance(g.iter, ast.Call) and isinstance(g.iter.func, ast.Attribute) and g.iter.func.attr == "values" \
+                            and not g.iter.args and not g.iter.keywords:
+                        return "(.sumValues %s %s %s)" % (q(self.nm(g.target.id)), self.expr(g.iter.func.value), self.expr(c.elt))
+                inl = self.inline_expr_helper(e)
+                if inl is not None:
+                    return self.expr(inl)
                 obj = self.g.get(f.id)
                 if inspect.isgeneratorfunction(obj) and obj.__name__ == "__retrydelays" and not e.args:
                     return ".delays"
@@ -103,6 +132,9 @@ class Tr:
                     return "(.mkExc %s)" % self.cls(f)
             if isinstance(f, ast.Attribute) and f.attr == "startswith" and len(e.args) == 1 and not e.keywords and self.is_bytes(e.args[0]):
                 return "(.startsWith %s %s)" % (self.expr(f.value), self.expr(e.args[0]))
+            if isinstance(f, ast.Attribute) and f.attr == "join" and len(e.args) == 1 and not e.keywords \
+                    and isinstance(f.value, ast.Constant) and f.value.value == b"":
+                return "(.joinChunks %s)" % self.expr(e.args[0])
             if isinstance(f, ast.Attribute) and ast.unparse(f) == "int.from_bytes" and len(e.args) == 2 and not e.keywords \
                     and isinstance(e.args[1], ast.Constant) and e.args[1].value == "big":
                 return "(.fromBytesBig %s)" % self.expr(e.args[0])
@@ -110,6 +142,8 @@ class Tr:
         if isinstance(e, ast.BinOp):
             if isinstance(e.op, ast.Sub):
                 return "(.sub %s %s)" % (self.expr(e.left), self.expr(e.right))
+            if isinstance(e.op, ast.Add) and self.bytes_typed(e):
+                return "(.concat %s %s)" % (self.expr(e.left), self.expr(e.right))
             if isinstance(e.op, ast.Add):
                 return "(.add %s %s)" % (self.expr(e.left), self.expr(e.right))
             if isinstance(e.op, ast.BitAnd):
@@ -277,6 +311,14 @@ class Tr:
                 return "(.closeRes %s)" % self.expr(v.func.value)
             if isinstance(v, ast.Call) and isinstance(v.func, ast.Attribute) and v.func.attr == "clear" and not v.args:
                 return "(.clearColl %s)" % q(self.target(v.func.value))
+            if isinstance(v, ast.Call) and isinstance(v.func, ast.Attribute) and v.func.attr == "append" and len(v.args) == 1 \
+                    and not v.keywords and isinstance(v.func.value, ast.Name) and v.func.value.id in self.locals:
+                x = q(self.nm(v.func.value.id))
+                if self.is_pack(v.args[0]):
+                    t = "t%d" % self.tmp
+                    self.tmp += 1
+                    return "(.seq %s (.appendTo %s (.var %s)))" % (self.pack(t, v.args[0]), x, q(t))
+                return "(.appendTo %s %s)" % (x, self.expr(v.args[0]))
             if isinstance(v, ast.Call) and isinstance(v.func, ast.Attribute):
                 if v.func.attr == "extend" and isinstance(v.func.value, ast.Name) and len(v.args) == 1:
                     return "(.extend %s %s)" % (q(self.nm(v.func.value.id)), self.expr(v.args[0]))
@@ -311,6 +353,22 @@ class Tr:
         if isinstance(s, ast.AugAssign) and isinstance(s.op, ast.BitAnd) and isinstance(s.value, ast.UnaryOp) \
                 and isinstance(s.value.op, ast.Invert):
             return "(.clearBits %s %s)" % (q(self.target(s.target)), self.expr(s.value.operand))
+        if isinstance(s, ast.AugAssign) and isinstance(s.op, ast.BitOr):
+            return "(.setBits %s %s)" % (q(self.target(s.target)), self.expr(s.value))
+        if isinstance(s, ast.Assign) and len(s.targets) == 1 and isinstance(s.targets[0], (ast.Name, ast.Attribute)) and self.is_pack(s.value):
+            return self.pack(self.target(s.targets[0]), s.value)
+        if isinstance(s, ast.Assign) and len(s.targets) == 1 and isinstance(s.targets[0], (ast.Name, ast.Attribute)) \
+                and isinstance(s.value, ast.Call) and ast.unparse(s.value.func) == "zlib.compress" and len(s.value.args) in (1, 2) \
+                and not s.value.keywords and self.g.get("zlib") is __import__("zlib"):
+            return "(.compress %s %s)" % (q(self.target(s.targets[0])), self.expr(s.value.args[0]))
+        if isinstance(s, ast.Assign) and len(s.targets) == 1 and isinstance(s.targets[0], (ast.Name, ast.Attribute)) \
+                and isinstance(s.value, ast.BoolOp) and isinstance(s.value.op, ast.Or) and len(s.value.values) == 2:
+            return "(.assign %s (.orElse %s %s))" % (q(self.target(s.targets[0])), self.expr(s.value.values[0]), self.expr(s.value.values[1]))
+        if isinstance(s, ast.For) and not s.orelse and isinstance(s.target, ast.Tuple) and len(s.target.elts) == 2 \
+                and all(isinstance(t, ast.Name) for t in s.target.elts) and isinstance(s.iter, ast.Call) \
+                and isinstance(s.iter.func, ast.Attribute) and s.iter.func.attr == "items" and not s.iter.args and not s.iter.keywords:
+            return "(.forEachItem %s %s %s %s)" % (q(self.nm(s.target.elts[0].id)), q(self.nm(s.target.elts[1].id)),
+                                                   self.expr(s.iter.func.value), self.block(s.body))
         if isinstance(s, ast.Assign) and len(s.targets) == 1 and isinstance(s.targets[0], ast.Subscript) \
                 and not isinstance(s.targets[0].slice, ast.Slice):
             t = s.targets[0]
@@ -386,6 +444,83 @@ class Tr:
             return ".skip"
         raise Untranslatable("statement %s" % ast.unparse(s).splitlines()[0])
 
+    def bytes_typed(self, e):
+        """syntactically certain to be a bytes value: a bytes literal / constant, b"".join(..), or a sum with such an operand"""
+        if self.is_bytes(e):
+            return True
+        if isinstance(e, ast.Call) and isinstance(e.func, ast.Attribute) and e.func.attr == "join" \
+                and isinstance(e.func.value, ast.Constant) and isinstance(e.func.value.value, bytes):
+            return True
+        return isinstance(e, ast.BinOp) and isinstance(e.op, ast.Add) and (self.bytes_typed(e.left) or self.bytes_typed(e.right))
+
+    def inline_expr_helper(self, call):
+        """`_x(a)` inside an expression, where the module-level private helper `_x` is `return <expr>` only: that expression with
+        the arguments substituted"""
+        f = call.func
+        if not (isinstance(f, ast.Name) and f.id.startswith("_") and f.id not in self.locals and inspect.isfunction(self.g.get(f.id))
+                and not inspect.isgeneratorfunction(self.g.get(f.id))) or call.keywords:
+            return None
+        fd = ast.parse(textwrap.dedent(inspect.getsource(self.g[f.id]))).body[0]
+        body = [b for b in fd.body if not (isinstance(b, ast.Expr) and isinstance(b.value, ast.Constant) and isinstance(b.value.value, str))]
+        params = [a.arg for a in fd.args.args]
+        if len(body) != 1 or not isinstance(body[0], ast.Return) or body[0].value is None or len(params) != len(call.args) \
+                or fd.args.vararg or fd.args.kwarg or fd.args.kwonlyargs or not all(isinstance(a, (ast.Name, ast.Constant)) for a in call.args):
+            return None
+        ren = dict(zip(params, call.args))
+
+        class R(ast.NodeTransformer):
+            def visit_Name(self_inner, n):
+                a = ren.get(n.id)
+                return n if a is None else ast.copy_location(a, n)
+        return R().visit(body[0].value)
+
+    def struct_fields(self, fmt_node):
+        fmt = self.resolve(fmt_node)
+        if not (isinstance(fmt, str) and fmt.startswith("!")):
+            raise Untranslatable("struct format %r" % (fmt,))
+        import re as _re
+        import struct as _struct
+        flds = []
+        for cnt, ch in _re.findall(r"(\d*)([a-zA-Z])", fmt[1:]):
+            if ch == "s":
+                flds.append(("raw", int(cnt or 1)))
+            elif ch in "BHI" and not cnt:
+                flds.append(("uint", {"B": 1, "H": 2, "I": 4}[ch]))
+            else:
+                raise Untranslatable("struct field %s%s" % (cnt, ch))
+        if _struct.calcsize(fmt) != sum(n for _, n in flds):
+            raise Untranslatable("struct format size")
+        return flds
+
+    def pack(self, target, call):
+        """`target = struct.pack(fmt, a1, a2, ...)`: arguments that are `<e>.encode("ascii")` are evaluated into temporaries first, in
+        order (the other arguments of the fragment cannot raise and have no effects, so the order of evaluation is kept)"""
+        if not (ast.unparse(call.func) == "struct.pack" and self.g.get("struct") is __import__("struct") and call.args and not call.keywords):
+            raise Untranslatable("call %s" % ast.unparse(call))
+        flds = self.struct_fields(call.args[0])
+        if len(flds) != len(call.args) - 1:
+            raise Untranslatable("struct.pack argument count")
+        pre, args = [], ".nil"
+        terms = []
+        for a in call.args[1:]:
+            if isinstance(a, ast.Call) and isinstance(a.func, ast.Attribute) and a.func.attr == "encode" and len(a.args) == 1 \
+                    and isinstance(a.args[0], ast.Constant) and a.args[0].value == "ascii" and not a.keywords:
+                t = "t%d" % self.tmp
+                self.tmp += 1
+                pre.append("(.encodeAscii %s %s)" % (q(t), self.expr(a.func.value)))
+                terms.append("(.var %s)" % q(t))
+            else:
+                terms.append(self.expr(a))
+        for (kind, n), t in reversed(list(zip(flds, terms))):
+            args = "(.cons (.%s %d) %s %s)" % (kind, n, t, args)
+        out = "(.packInto %s %s)" % (q(target), args)
+        for pterm in reversed(pre):
+            out = "(.seq %s %s)" % (pterm, out)
+        return out
+
+    def is_pack(self, v):
+        return isinstance(v, ast.Call) and ast.unparse(v.func) == "struct.pack"
+
     def is_bytes(self, e):
         return (isinstance(e, ast.Constant) and isinstance(e.value, bytes)) or \
             (isinstance(e, ast.Name) and e.id not in self.locals and type(self.g.get(e.id)) is bytes)
@@ -411,6 +546,7 @@ class Tr:
         self.locals = {a.arg for a in fd.args.args} | {n.id for n in ast.walk(fd) if isinstance(n, ast.Name) and isinstance(n.ctx, ast.Store)} \
             | {h.name for h in ast.walk(fd) if isinstance(h, ast.ExceptHandler) and h.name}
         self.rename = {}
+        self.tmp = 0
         # splice private helpers in first, everywhere (so that moving code into a helper changes nothing) ...
         fd.body = self.expand_all(fd.body)
         # ... then canonical names: parameter k -> "p<k>", locals -> "v<k>" in the order in which the (expanded) source first
